@@ -537,7 +537,8 @@ func planFragmentMatches(schema Schema, typeConditionAST *ast.Named, runtime *Ob
 		return true
 	}
 	conditionalType, err := typeFromAST(schema, typeConditionAST)
-	if err != nil {
+	if err != nil || conditionalType == nil {
+		// an unknown type name resolves to a nil type without an error
 		return false
 	}
 	if conditionalType == runtime {
